@@ -552,5 +552,12 @@ def collect(report: Report, cases: Sequence[Any], results: Sequence[Any], key: C
         report.record(c, r.get("failures", []), nontrivial_key=(key(c) if key else c))
 
 
+def repo_root() -> str:
+    """The source tree acryo is imported from (normally /repo; a snapshot when PYTHONPATH points elsewhere)."""
+    import acryo
+
+    return str(Path(acryo.__file__).resolve().parent.parent)
+
+
 def clean_work():
     shutil.rmtree(WORK, ignore_errors=True)
